@@ -6,8 +6,10 @@
 #include "mtbl-private.h"
 
 #define MAXN 5
+/* second key pool: long common prefixes, so that "share less than the longest common prefix" has room (LCPs 2, 4, 5, 3, 0) */
+static const struct { uint8_t b[8]; size_t n; } K2[6] = { { "ab", 2 }, { "abab", 4 }, { "ababab", 6 }, { "ababac", 6 }, { "abac", 4 }, { "b", 1 } };
 typedef struct {
-	int n; int key[MAXN];              /* indices into K9 */
+	int n; int key[MAXN];              /* indices into K9, or 100 + index into K2 */
 	unsigned cutmask;                   /* bit i set: a block boundary after entry i */
 	unsigned restartmask;               /* bit i set: entry i is a restart point (entry 0 of each block always is) */
 	int share[MAXN];                    /* 0 = share nothing, 1 = lcp-1 (if lcp>0), 2 = full lcp */
@@ -24,17 +26,17 @@ static size_t lcp(const uint8_t *a, size_t al, const uint8_t *b, size_t bl) { si
 static uint8_t *build(const ecase *c, size_t *outlen, tkv *ents, uint8_t vals[][8]) {
 	ic_buf f = { 0 };
 	for (size_t i = 0; i < c->prefix; i++) { uint8_t b = tbl_prefix_byte(i); ic_buf_put(&f, &b, 1); }
-	ic_enc_ent idx[MAXN]; uint8_t offv[MAXN][10]; static uint8_t sepk[MAXN][8]; int nidx = 0;
+	ic_enc_ent idx[MAXN]; uint8_t offv[MAXN][10]; static uint8_t sepk[MAXN][12]; int nidx = 0;
 	uint64_t bytes_data = 0, nk = 0, nv = 0;
 	int start = 0;
-	for (int i = 0; i < c->n; i++) { size_t vl = 1 + (i % 3); memset(vals[i], 'A' + i, vl); ents[i] = (tkv) { TBL_K9[c->key[i]].b, TBL_K9[c->key[i]].n, vals[i], vl }; nk += ents[i].kl; nv += vl; }
+	for (int i = 0; i < c->n; i++) { size_t vl = 1 + (i % 3); memset(vals[i], 'A' + i, vl); ents[i] = c->key[i] >= 100 ? (tkv) { K2[c->key[i] - 100].b, K2[c->key[i] - 100].n, vals[i], vl } : (tkv) { TBL_K9[c->key[i]].b, TBL_K9[c->key[i]].n, vals[i], vl }; nk += ents[i].kl; nv += vl; }
 	for (int i = 0; i < c->n; i++) {
 		bool last_of_block = (i == c->n - 1) || (c->cutmask >> i & 1);
 		if (!last_of_block) continue;
 		ic_enc_ent be[MAXN]; int m = 0;
 		for (int j = start; j <= i; j++, m++) {
 			be[m] = (ic_enc_ent) { ents[j].k, ents[j].kl, ents[j].v, ents[j].vl, j == start || (c->restartmask >> j & 1), 0 };
-			if (!be[m].restart) { size_t l = lcp(ents[j - 1].k, ents[j - 1].kl, ents[j].k, ents[j].kl); be[m].shared = c->share[j] == 0 ? 0 : c->share[j] == 1 ? (l ? (uint32_t) l - 1 : 0) : (uint32_t) l; }
+			if (!be[m].restart) { size_t l = lcp(ents[j - 1].k, ents[j - 1].kl, ents[j].k, ents[j].kl); be[m].shared = c->share[j] == 0 ? 0 : c->share[j] == 1 ? (l ? (uint32_t) l - 1 : 0) : c->share[j] == 3 ? (l ? 1 : 0) : (uint32_t) l; }
 		}
 		ic_buf blk = { 0 }; ic_enc_block(&blk, be, m);
 		uint64_t off = f.n; ic_enc_store(&f, blk.p, blk.n, c->comp, c->version); bytes_data += f.n - off; free(blk.p);
@@ -58,7 +60,7 @@ static uint8_t *build(const ecase *c, size_t *outlen, tkv *ents, uint8_t vals[][
 	*outlen = f.n; return f.p;
 }
 
-static u5key U[40]; static size_t nU;
+static u5key U[80]; static size_t nU;
 static uint64_t n_files, n_lookups;
 static void check(ecase *c) {
 	vh_case_begin(render, c);
@@ -209,6 +211,7 @@ static void bb64(void) {
 int main(int argc, char **argv) {
 	vh_init(argc, argv);
 	nU = u5_gen(U, 2);
+	for (int i = 0; i < 6; i++) for (size_t l = 1; l <= K2[i].n && l <= 4; l++) { bool dup = false; for (size_t q = 0; q < nU; q++) if (U[q].n == l && !memcmp(U[q].b, K2[i].b, l)) dup = true; if (!dup && nU < 78) { memcpy(U[nU].b, K2[i].b, l); U[nU].n = l; nU++; } }
 	ecase c;
 	if (vh_case_arg) {
 		memset(&c, 0, sizeof c); int off = 0; const char *s = vh_case_arg;
@@ -251,6 +254,22 @@ int main(int argc, char **argv) {
 		for (unsigned cut = 0; cut < (1u << (n - 1)); cut++) for (int ver = 1; ver <= 2; ver++) for (int ci = 0; ci < 6; ci++) for (int pf = 0; pf < 2; pf++) for (int rl = 0; rl < 2; rl++) {
 			for (int i = 0; i < n; i++) c.sep[i] = (ci + i) % 4;
 			c.cutmask = cut; c.restartmask = rl ? 0xff : 0; c.version = ver; c.comp = comps[ci]; c.prefix = pf ? 13 : 0; check(&c);
+		}
+	}
+	/* (4) long-prefix pool: every subset, every partition, every restart set, four sharing amounts per non-restart entry {0, 1, lcp-1, lcp} */
+	for (unsigned mask = 1; mask < 64; mask++) {
+		int n = __builtin_popcount(mask); if (n > maxn || n < 2) continue;
+		if (!vh_mine(idx++)) continue;
+		if (vh_time_up() || vh_too_many()) break;
+		memset(&c, 0, sizeof c); c.n = 0; for (int i = 0; i < 6; i++) if (mask >> i & 1) c.key[c.n++] = 100 + i;
+		for (unsigned cut = 0; cut < (1u << (n - 1)); cut++) for (unsigned rs = 0; rs < (1u << n); rs += 2) {
+			int nsh = 1; for (int i = 1; i < n; i++) nsh *= 4;
+			for (int sc = 0; sc < nsh; sc++) {
+				int x = sc; bool skip = false;
+				for (int i = 1; i < n; i++) { c.share[i] = x % 4; x /= 4; bool fresh = (rs >> i & 1) || (cut >> (i - 1) & 1); if (fresh && c.share[i] != 2) skip = true; }
+				if (skip) continue;
+				for (int ver = 1; ver <= 2; ver++) { c.cutmask = cut; c.restartmask = rs; c.version = ver; c.comp = (sc + ver) % 6; c.prefix = 0; for (int i = 0; i < n; i++) c.sep[i] = (sc + i) % 4; check(&c); VH_COUNT("partial_sharing_files", 1); }
+			}
 		}
 	}
 	vh_count("transitions", n_lookups);
